@@ -3,7 +3,7 @@ import os, random, re
 from vlib import *
 from l2common import *
 
-THEOREMS = {"C09": [], "C10": ["fault_is_fatal", "no_fault_no_fault"]}
+THEOREMS = {"C09": ["write_keeps_original", "bad_section_writes_nothing", "failed_write_stops_removals"], "C10": ["fault_is_fatal", "no_fault_no_fault"]}
 
 FAULT_CALLS = ["read", "write", "openat", "rename", "unlink", "chmod", "mkdir", "symlink", "rmdir"]
 KILL_CALLS = FAULT_CALLS + ["close", "newfstatat", "lseek", "fstat"]
